@@ -600,6 +600,41 @@ func c07SelfAllCall(n ast.Node, name string) bool {
 	return false
 }
 
+// c07BoundNames collects the names that {let}s and loops bind anywhere in the tree.
+func c07BoundNames(n ast.Node, into map[string]bool) {
+	if n == nil {
+		return
+	}
+	switch x := n.(type) {
+	case *ast.LetValueNode:
+		into[x.Name] = true
+	case *ast.LetContentNode:
+		into[x.Name] = true
+	case *ast.ForNode:
+		into[x.Var] = true
+	}
+	if p, ok := n.(ast.ParentNode); ok {
+		for _, c := range p.Children() {
+			c07BoundNames(c, into)
+		}
+	}
+}
+
+// c07AllCallees: the templates the tree calls with data="all".
+func c07AllCallees(n ast.Node, into map[string]bool) {
+	if n == nil {
+		return
+	}
+	if c, ok := n.(*ast.CallNode); ok && c.AllData {
+		into[c.Name] = true
+	}
+	if p, ok := n.(ast.ParentNode); ok {
+		for _, c := range p.Children() {
+			c07AllCallees(c, into)
+		}
+	}
+}
+
 // msgSites: the expressions inside a {msg}: placeholders and {plural}.
 func (w *c07Walker) msgSites(ns []ast.Node) {
 	for _, c := range ns {
@@ -668,8 +703,8 @@ func c07Sites(files []*ast.SoyFileNode) []c07Site {
 		}
 		c07Calls(t.node.Body, called)
 	}
-	for _, t := range ts {
-		t := t
+	for ti, t := range ts {
+		ti, t := ti, t
 		w.params = nil
 		for _, p := range t.params {
 			w.params = append(w.params, p.name)
@@ -729,6 +764,68 @@ func c07Sites(files []*ast.SoyFileNode) []c07Site {
 				insertAt(t.node.Body, nh, &ast.ForNode{Var: "zzP", List: &ast.ListLiteralNode{Items: []ast.Node{intLitNode(1)}},
 					Body: &ast.ListNode{Nodes: []ast.Node{printRef("zzP")}}})
 			})
+		}
+		// names that OTHER templates of the bundle declare or bind: the checker's per-template state (params, variables
+		// in scope, used keys) must not leak from one template to the next, in either order
+		{
+			local := map[string]bool{"ij": true}
+			for _, p := range t.params {
+				local[p.name] = true
+			}
+			c07BoundNames(t.node.Body, local)
+			allCallees := map[string]bool{}
+			c07AllCallees(t.node.Body, allCallees)
+			forwarded := func(x string) bool {
+				for c := range allCallees {
+					for _, p := range w.callees[c] {
+						if p.name == x {
+							return true
+						}
+					}
+				}
+				return false
+			}
+			seenP, seenV := 0, 0
+			for oi, o := range ts {
+				if o.node == t.node {
+					continue
+				}
+				pos := "earlier"
+				if oi > ti {
+					pos = "later"
+				}
+				for _, p := range o.params {
+					x := p.name
+					if local[x] || seenP >= 2 {
+						continue
+					}
+					seenP++
+					local[x] = true
+					w.add("undeclared-name", "template-end:param-of-"+pos+"-template", func() {
+						insertAt(t.node.Body, len(t.node.Body.Nodes), printRef(x))
+					})
+					if !forwarded(x) && !selfAll {
+						w.add("unused-param", style+":name-used-by-"+pos+"-template", func() { addParam(x) })
+					}
+				}
+				vs := map[string]bool{}
+				c07BoundNames(o.node.Body, vs)
+				var names []string
+				for x := range vs {
+					names = append(names, x)
+				}
+				sort.Strings(names)
+				for _, x := range names {
+					if local[x] || seenV >= 2 {
+						continue
+					}
+					seenV++
+					local[x] = true
+					w.add("undeclared-name", "template-end:variable-of-"+pos+"-template", func() {
+						insertAt(t.node.Body, len(t.node.Body.Nodes), printRef(x))
+					})
+				}
+			}
 		}
 		w.add("soydoc-and-header-params", style, func() {
 			switch {
